@@ -653,3 +653,26 @@ func VH_C14_Grammar_Negations() {
 	vObserve("ebnf", p.String())
 	vReach("grammar")
 }
+
+// ---------- anonymous struct productions whose types differ in punctuation only ----------
+
+type vgAnonTwins struct {
+	X struct {
+		V string `@A`
+	} `@@`
+	Y struct {
+		V string `@A?`
+	} `@@`
+	Z *struct {
+		V string `@A*`
+	} `@@?`
+}
+
+func VH_C14_Grammar_AnonTwins() {
+	p, err := participle.Build[vgAnonTwins](participle.Lexer(vhLexDef))
+	vAssert(err == nil, "catalogue grammar must build")
+	ast := vhGrammarRoundTrip(p.String(), "VgAnonTwins")
+	vAssert(len(ast.Productions) == 4, "C14: distinct anonymous productions are merged or missing in the EBNF")
+	vObserve("ebnf", p.String())
+	vReach("grammar")
+}
